@@ -1,5 +1,5 @@
 (* C13 — Compression and vector-to-MPS conversion obey their truncation error bounds.
-   Only statements, closed by [exact]/[apply]; proofs live in Proofs/Compress{Partial,SVD,Local,Sweep,Top,Error,Bool}.v and
+   Only statements, closed by [exact]/[apply]; proofs live in Proofs/Compress{Partial,SVD,Local,Sweep,Top,Error,Bool,Right}.v and
    Proofs/Orth*.v.
    Model: Model/Orthonormalize.v [mps_compress] (mirror of pytenet/mps.py MPS.compress, local_orthonormalize_left_svd /
    right_svd) on top of Model/BondOps.v [block_svd], [retained]; numpy.linalg.qr / svd, the unstable argsort and abs of a
@@ -19,25 +19,26 @@
      MPS psi (also the zero state: the preliminary orthonormalisation always returns a normalised state), 0 <= tol < 1,
      oracles meeting their contracts on the issued calls:  mps_compress tol mode psi = Some (psi', nrm, scale)  with
        (a) nrm >= 0, nrm^2 = <psi|psi>                                                       PROVED both modes (C13_compress_nrm_partial),
-       (b) scale >= 0, scale^2 = prod_i (1 - eps_i), L factors, 0 <= eps_i <= tol           PROVED mode 'left' (C13_compress_left_spec)
-       (c) 1 - L*tol <= scale^2 <= 1                                                         PROVED mode 'left' (C13_compress_left_error)
+       (b) scale >= 0, scale^2 = prod_i (1 - eps_i), L factors, 0 <= eps_i <= tol           PROVED both modes (C13_compress_left_spec / _right_spec)
+       (c) 1 - L*tol <= scale^2 <= 1                                                         PROVED both modes (C13_compress_left_error / _right_error)
        (d) psi' well formed, block sparse, every site a left isometry, <psi'|psi'> = 1,
-           new bond dimensions <= those after the preliminary orthonormalisation <= original  PROVED mode 'left' (C13_compress_left_spec)
+           new bond dimensions <= those after the preliminary orthonormalisation <= original  PROVED both modes (isometry = left for 'left', right for 'right')
        (e) the first truncated bond keeps exactly the Schmidt values [retained] prescribes   NOT PROVED as a theorem about mps_compress
            (C12_block_svd_spec gives s = S[retained pick S tol] for each local split; that the first call's S are the Schmidt
             values of the cut follows from the right-canonical form; the connecting lemma is not written)
-       (f) tol = 0  ==>  scale = 1 and nrm * scale * amp psi' w = amp psi w for every word w   PROVED mode 'left' (C13_compress_left_spec)
+       (f) tol = 0  ==>  scale = 1 and nrm * scale * amp psi' w = amp psi w for every word w   PROVED both modes
        (g) <psi'|psi> = nrm*scale and || nrm*scale*psi' - psi ||^2 = nrm^2 (1 - scale^2) <= nrm^2 * L * tol
-                                                                                             PROVED mode 'left' (C13_compress_left_spec / _error)
-       (b)-(g) for mode 'right'                                                              NOT PROVED (the local step and the sweep induction are
-           written against an orientation-free [local_spec]; the right SVD step needs its own instance and the mirror of
-           Proofs/OrthRight.v for sweeps with a transposed oracle; validated numerically by harness/props/c13.py)
-       (h) MPS.from_vector(tol): relative error <= sqrt(L*tol)  (from_vector is not modelled)   NOT PROVED
+                                                                                             PROVED both modes (C13_compress_*_spec / _error)
+       mode 'right' is obtained from the same orientation-free sweep induction: the right SVD step seen on the mirrored chain
+           (sites reversed, matrices transposed, charges negated) meets [local_spec] (Proofs/CompressRight.v), sweeps of mirrored
+           steps are mirror images, amplitudes / isometries / sparsity transfer as in Proofs/OrthRight.v.
+       (h) MPS.from_vector(d, n, v, tol) (Model/FromVector.v): || as_vector(result) - v ||^2 <= n * tol * ||v||^2   PROVED (C13_from_vector_bound)
+           for oracles meeting dsvd_ok / pick_ok on the calls the loop issues (tol = 0: exact, C03_from_vector_exact).
      Square roots are avoided: all bounds are stated for scale^2 and the squared distance. *)
 From Coq Require Import ZArith QArith Qcanon List Bool Lia.
-From PT Require Import Base.Scalar Base.Field Base.BigSum Base.Mx Model.Tensor Model.BondOps Model.Orthonormalize.
+From PT Require Import Base.Scalar Base.Field Base.BigSum Base.Mx Model.Tensor Model.BondOps Model.Orthonormalize Model.FromVector.
 From PT Require Import Proofs.BondOpsSpec Proofs.BondOpsRetained Proofs.BondOpsSVD Proofs.OrthDefs Proofs.OrthSweep Proofs.OrthTop Proofs.OrthBool Proofs.CompressPartial.
-From PT Require Import Proofs.CompressLocal Proofs.CompressSweep Proofs.CompressTop Proofs.CompressError Proofs.CompressBool.
+From PT Require Import Proofs.CompressLocal Proofs.CompressSweep Proofs.CompressTop Proofs.CompressError Proofs.CompressBool Proofs.CompressRight Proofs.FromVectorBound.
 Import ListNotations.
 Open Scope nat_scope.
 
@@ -118,6 +119,54 @@ Theorem C13_compress_left_error : forall (F : ofield) dqr dsvd pick cabs (p : mp
 Proof. intros F dqr dsvd pick cabs p d tol. exact (compress_left_error F dqr dsvd pick cabs p d tol). Qed.
 Print Assumptions C13_compress_left_error.
 
+(* ---- mode = 'right': the mirror image.  Preliminary orthonormalisation in mode 'left', truncation sweep from the last site;
+   every site of psi' is a right isometry, the bond bound runs from the right (reversed dimension lists); all other
+   conclusions are those of C13_compress_left_spec. *)
+Theorem C13_compress_right_spec : forall (F : ofield) dqr dsvd pick cabs (p : mps (Cx F)) (d : nat) (tol : F),
+  1 <= d -> length (m_qd p) = d -> m_A p <> [] -> mps_ok p = true ->
+  length (hd [] (m_qD p)) = 1 -> length (last (m_qD p) []) = 1 ->
+  Forall (fun q => 1 <= length q) (m_qD p) ->
+  fle F (f0 F) tol -> flt F tol (f1 F) ->
+  Forall (qr_call_ok F dqr) (mps_orth_calls dqr true p) ->
+  (forall p1 n1, mps_orthonormalize dqr true p = Some (p1, n1) -> compress_ok dsvd pick tol false p1) ->
+  (forall t, compress_T dqr dsvd pick tol false p = Some t -> abs_ok cabs t) ->
+  exists p1 p' nrm sc,
+    mps_orthonormalize dqr true p = Some (p1, nrm) /\
+    mps_compress dqr dsvd pick cabs tol false p = Some (p', nrm, sc) /\
+    m_qd p' = m_qd p /\ length (m_A p') = length (m_A p) /\ mps_ok p' = true /\
+    length (hd [] (m_qD p')) = 1 /\ length (last (m_qD p') []) = 1 /\
+    Forall (fun q => 1 <= length q) (m_qD p') /\
+    bond_bound d (rev (lens (m_qD p'))) (rev (lens (m_qD p1))) /\
+    Forall2 le (lens (m_qD p')) (lens (m_qD p)) /\
+    chain_riso (lens (m_qD p')) (m_A p') /\
+    norm2 d (m_A p') = k1 (Cx F) /\
+    fle F (f0 F) nrm /\ norm2 d (m_A p) = cof (fmul F nrm nrm) /\
+    fle F (f0 F) sc /\
+    length (compress_eps dsvd pick tol false p1) = length (m_A p) /\
+    (forall e, In e (compress_eps dsvd pick tol false p1) -> fle F (f0 F) e /\ fle F e tol) /\
+    fmul F sc sc = fprod (map (fun e => fsub F (f1 F) e) (compress_eps dsvd pick tol false p1)) /\
+    (tol = f0 F -> sc = f1 F /\ forall w, length w = length (m_A p) -> letters d w ->
+       amp (m_A p) w = kmul (Cx F) (kmul (Cx F) (cof nrm) (cof sc)) (amp (m_A p') w)) /\
+    suml (words d (length (m_A p))) (fun w => kmul (Cx F) (kconj (Cx F) (amp (m_A p') w)) (amp (m_A p) w)) = cof (fmul F nrm sc).
+Proof. intros F dqr dsvd pick cabs p d tol. exact (compress_right_spec F dqr dsvd pick cabs p d tol). Qed.
+Print Assumptions C13_compress_right_spec.
+
+Theorem C13_compress_right_error : forall (F : ofield) dqr dsvd pick cabs (p : mps (Cx F)) (d : nat) (tol : F),
+  1 <= d -> length (m_qd p) = d -> m_A p <> [] -> mps_ok p = true ->
+  length (hd [] (m_qD p)) = 1 -> length (last (m_qD p) []) = 1 ->
+  Forall (fun q => 1 <= length q) (m_qD p) ->
+  fle F (f0 F) tol -> flt F tol (f1 F) ->
+  Forall (qr_call_ok F dqr) (mps_orth_calls dqr true p) ->
+  (forall p1 n1, mps_orthonormalize dqr true p = Some (p1, n1) -> compress_ok dsvd pick tol false p1) ->
+  (forall t, compress_T dqr dsvd pick tol false p = Some t -> abs_ok cabs t) ->
+  exists p' nrm sc,
+    mps_compress dqr dsvd pick cabs tol false p = Some (p', nrm, sc) /\
+    fle F (fsub F (f1 F) (nsmul (length (m_A p)) tol)) (fmul F sc sc) /\ fle F (fmul F sc sc) (f1 F) /\
+    dist2 d (cof (fmul F nrm sc)) (m_A p') (m_A p) = cof (fmul F (fmul F nrm nrm) (fsub F (f1 F) (fmul F sc sc))) /\
+    fle F (fmul F (fmul F nrm nrm) (fsub F (f1 F) (fmul F sc sc))) (fmul F (fmul F nrm nrm) (nsmul (length (m_A p)) tol)).
+Proof. intros F dqr dsvd pick cabs p d tol. exact (compress_right_error F dqr dsvd pick cabs p d tol). Qed.
+Print Assumptions C13_compress_right_error.
+
 (* the steps [compress_args] are exactly the steps whose block SVD calls the model lists in [compress_svd_calls] (both modes) *)
 Theorem C13_compress_calls : forall (F : ofield) dsvd pick (tol : F) (left : bool) (p1 : mps (Cx F)),
   compress_svd_calls dsvd pick tol left p1 =
@@ -125,6 +174,23 @@ Theorem C13_compress_calls : forall (F : ofield) dsvd pick (tol : F) (left : boo
            (compress_args dsvd pick tol left p1).
 Proof. intros F dsvd pick tol left p1. exact (compress_svd_calls_args F dsvd pick tol left p1). Qed.
 Print Assumptions C13_compress_calls.
+
+(* (h) MPS.from_vector.  For every d >= 1, n >= 1, vector v of length d^n, 0 <= tol < 1, SVD oracle meeting LAPACK's contract
+   [dsvd_ok] (shapes, U diag(s) V = M, U^H U = I, V V^H = I, s >= 0) and argsort oracle meeting [pick_ok] on the calls the
+   TT-SVD loop actually issues ([from_vector_calls], call i indexed by the iteration): the model returns an MPS psi of length n and
+   sum_u | v_u - amp psi (u-th word) |^2 = e,  sum_u |v_u|^2 = nv  with  0 <= e <= (n tol) nv   (nsmul n tol = tol + ... + tol).
+   (amp psi of the u-th word is entry u of as_vector, C03_as_vector_words.) *)
+Theorem C13_from_vector_bound : forall (F : ofield) (dsvd : nat -> mx (Cx F) -> mx (Cx F) * list F * mx (Cx F))
+    (srt : nat -> list F -> list nat) (tol : F) (d n : nat) (vec : list (Cx F)),
+  fle F (f0 F) tol -> flt F tol (f1 F) ->
+  0 < d -> 0 < n -> length vec = d ^ n ->
+  Forall (fv_call_ok2 dsvd srt) (from_vector_calls dsvd srt d n vec tol) ->
+  exists p e nv, from_vector dsvd srt d n vec tol = Some p /\ length (m_A p) = n /\
+    sumn (d ^ n) (fun u => sq (ksub (Cx F) (nth u vec (k0 (Cx F))) (amp (m_A p) (nth u (words d n) [])))) = cof e /\
+    sumn (d ^ n) (fun u => sq (nth u vec (k0 (Cx F)))) = cof nv /\
+    fle F (f0 F) e /\ fle F e (fmul F (nsmul n tol) nv).
+Proof. intros F dsvd srt tol d n vec Ht0 Ht1. exact (from_vector_bound F dsvd srt tol Ht0 Ht1 d n vec). Qed.
+Print Assumptions C13_from_vector_bound.
 
 (* Non-vacuity: product state L = 2, d = 2, tensors (3,4) (x) (3,4), mode = 'left', tol = 1/10; the QR table (two calls of the
    right orthonormalisation), the SVD table (column (3/5,4/5) = (3/5,4/5)^T . 1 . [[1]]), argsort answer [0] and abs = real part
@@ -169,4 +235,33 @@ Proof.
   split; [apply qr_call_okb_sound; vm_compute; reflexivity|].
   split; [apply (compress_hyp_of_bool QcF (qr_oracle ex_qtbl) (svd_oracle ex_stbl) ex_pick (qq 1 10) true ex_p); vm_compute; reflexivity|].
   split; [apply (abs_hyp_of_bool QcF (qr_oracle ex_qtbl) (svd_oracle ex_stbl) ex_pick ex_abs (qq 1 10) true ex_p); vm_compute; reflexivity|]. vm_compute; reflexivity.
+Qed.
+(* mode = 'right' on the same state: left-orthonormalisation uses the same two QR calls; both truncation steps split the
+   1 x 2 row (3/5, 4/5) = [[1]] . 1 . (3/5, 4/5) *)
+Definition ex_stbl_r : list (mx (Cx QcF) * (mx (Cx QcF) * list QcF * mx (Cx QcF))) :=
+  [ (mc 1 2 [[cq 3 5; cq 4 5]], (mc 1 1 [[cq 1 1]], [qq 1 1], mc 1 2 [[cq 3 5; cq 4 5]])) ].
+Example C13_right_nonvacuous :
+  Forall (qr_call_ok QcF (qr_oracle ex_qtbl)) (mps_orth_calls (qr_oracle ex_qtbl) true ex_p) /\
+  (forall p1 n1, mps_orthonormalize (qr_oracle ex_qtbl) true ex_p = Some (p1, n1) ->
+     compress_ok (svd_oracle ex_stbl_r) ex_pick (qq 1 10) false p1) /\
+  (forall t, compress_T (qr_oracle ex_qtbl) (svd_oracle ex_stbl_r) ex_pick (qq 1 10) false ex_p = Some t -> abs_ok ex_abs t) /\
+  match mps_compress (qr_oracle ex_qtbl) (svd_oracle ex_stbl_r) ex_pick ex_abs (qq 1 10) false ex_p with
+  | Some (p', nrm, sc) => feqb QcF nrm (qq 25 1) && feqb QcF sc (qq 1 1) && mps_ok p' | None => false end = true.
+Proof.
+  split; [apply qr_call_okb_sound; vm_compute; reflexivity|].
+  split; [apply (compress_hyp_of_bool QcF (qr_oracle ex_qtbl) (svd_oracle ex_stbl_r) ex_pick (qq 1 10) false ex_p); vm_compute; reflexivity|].
+  split; [apply (abs_hyp_of_bool QcF (qr_oracle ex_qtbl) (svd_oracle ex_stbl_r) ex_pick ex_abs (qq 1 10) false ex_p); vm_compute; reflexivity|].
+  vm_compute; reflexivity.
+Qed.
+(* from_vector: d = 2, n = 1, v = (3, 4), tol = 1/10: one call, M = (3,4)^T = (3/5,4/5)^T . 5 . [[1]] *)
+Definition fvb_vec : list (Cx QcF) := [cq 3 1; cq 4 1].
+Definition fvb_svd (i : nat) (_ : mx (Cx QcF)) : mx (Cx QcF) * list QcF * mx (Cx QcF) :=
+  (mc 2 1 [[cq 3 5]; [cq 4 5]], [qq 5 1], mc 1 1 [[cq 1 1]]).
+Definition fvb_srt (i : nat) (_ : list QcF) : list nat := [0].
+Example C13_from_vector_nonvacuous :
+  Forall (fv_call_ok2 fvb_svd fvb_srt) (from_vector_calls fvb_svd fvb_srt 2 1 fvb_vec (qq 1 10)) /\
+  length (from_vector_calls fvb_svd fvb_srt 2 1 fvb_vec (qq 1 10)) = 1 /\
+  match from_vector fvb_svd fvb_srt 2 1 fvb_vec (qq 1 10) with Some p => Nat.eqb (length (m_A p)) 1 | None => false end = true.
+Proof.
+  split; [apply (fv_call_ok2b_ok QcF); vm_compute; reflexivity|]. split; vm_compute; reflexivity.
 Qed.
